@@ -9,7 +9,7 @@ log = subprocess.run(["git", "-C", "/repo", "log", "--format=%h %s"], stdout=sub
 hmap = {l.split(" ", 1)[1]: l.split(" ", 1)[0] for l in log}
 out = []
 for f in k["fixed"]:
-    m = re.match(r"fixed: property=(\S+) (fix: .*?) -- (.*)", f)
+    m = re.match(r"fixed: property=(\S+) (fix: .*?) (?:--|\|) (.*)", f)
     if m and m.group(2) in hmap:
         out.append("fixed: property=%s %s (%s) -- %s" % (m.group(1), hmap[m.group(2)], m.group(2), m.group(3)))
     else:
